@@ -54,6 +54,11 @@ type Ops struct {
 	P2Step       func(prev []byte) (Step, error)
 	P2Layout     func(b []byte) (*Layout, error)
 
+	// P1VerifyThenReuse runs VerifyPhase1 on the chain, serializes the commons it returned, then lets
+	// the coordinator reuse its last decoded contribution object to read another stream, and
+	// serializes the same commons value again.
+	P1VerifyThenReuse func(N uint64, beacon []byte, contribs [][]byte, other []byte) (before, after []byte, err error)
+
 	// Reencode decodes an object ("p1", "p2" contribution or "commons") from a stream that delivers
 	// the bytes in the given piece sizes (cyclically) and writes it again; consumed = bytes the decoder
 	// reported.
